@@ -176,3 +176,20 @@ pub fn h_c09_functions_other_languages() {
     check("C09.languages.second_parse_gives_the_same_tree", second == first);
     reach("C09.languages");
 }
+
+/// an immediately invoked LAMBDA: parameters and call arguments both use the argument separator of the locale
+pub fn h_c09_lambda_call_in_locales() {
+    let comma_locale = any_bool();
+    let en = locale_with(".", ",");
+    let other = if comma_locale { locale_with(",", ".") } else { locale_with(".", ",") };
+    let ctx = CellReferenceRC { sheet: "Sheet1".to_string(), row: 5, column: 5 };
+    let mut parser = Parser::new(vec!["Sheet1".to_string()], vec![], HashMap::new(), &en, language_en());
+    let first = parser.parse("LAMBDA(x,y,x+y)(1.5,2)", &ctx);
+    let rejected = match first { Node::ParseErrorKind { .. } => true, _ => false };
+    check("C09.lambda_call.accepted", !rejected);
+    let printed = to_localized_string(&first, &ctx, &other, language_en());
+    let mut parser2 = Parser::new(vec!["Sheet1".to_string()], vec![], HashMap::new(), &other, language_en());
+    let second = parser2.parse(&printed, &ctx);
+    check("C09.lambda_call.second_parse_gives_the_same_tree", second == first);
+    reach("C09.lambda_call");
+}
